@@ -1964,9 +1964,13 @@ class Filter(Blockwise):
                 # still move further
                 if is_filter_pushdown_available(
                     self, parent, dependents, allow_reduction=False
-                ) and _depends_on(parent.predicate, self._name, {}):
-                    # A predicate that does not derive from self has the rows of
-                    # self, not those of self.frame
+                ) and (
+                    _depends_on(parent.predicate, self._name, {})
+                    or _depends_on(parent.predicate, self.frame._name, {})
+                ):
+                    # A predicate that derives neither from self nor from
+                    # self.frame (df[p][q] with q computed on df) has the rows
+                    # of self, not those of self.frame
                     # We can only squash 2 filters together if the predicate of parent
                     # does not directly depend on self, e.g. if
                     # sum is in the predicate of parent, then removing self would
